@@ -70,7 +70,7 @@ Section Inv.
   Proof. destruct sh; reflexivity. Qed.
 
   Lemma goodL_fail : forall reqs moved waits F cnt nbq rs e,
-    GoodL false reqs moved waits F -> ranges_ok lens F rs = true -> cnt = List.length rs ->
+    GoodL false reqs moved waits F -> ranges_ok lens F true rs = true -> cnt = List.length rs ->
     GoodL (would_block sh e) (reqs ++ [mkReq cnt nbq rs e O]) (moved ++ []) waits F.
   Proof.
     intros reqs moved waits F cnt nbq rs e (G1 & G2 & G3 & G4 & G5) R C.
@@ -83,7 +83,7 @@ Section Inv.
   Qed.
 
   Lemma goodL_succ : forall reqs moved waits F cnt nbq rs n,
-    GoodL false reqs moved waits F -> ranges_ok lens F rs = true -> cnt = List.length rs ->
+    GoodL false reqs moved waits F -> ranges_ok lens F true rs = true -> cnt = List.length rs ->
     positions lens rs = seq F (total lens - F) ->
     let ps := firstn n (positions lens rs) in
     List.length ps = Nat.min n (total lens - F) /\
@@ -135,7 +135,7 @@ Section Inv.
   (** one kernel call on an array that is the caller's unfilled suffix *)
   Lemma kcall_good : forall cnt rs x s F,
     wf_script_entry x = true -> Good false s F -> s_nb s = true ->
-    ranges_ok lens F rs = true -> cnt = List.length rs ->
+    ranges_ok lens F true rs = true -> cnt = List.length rs ->
     positions lens rs = seq F (total lens - F) ->
     exists r s', kcall lens cnt rs x s = (r, s') /\ s_nb s' = true /\
       ((r = -1 /\ s_errno s' <> 0 /\ last_err (s_reqs s') = Some (s_errno s')
